@@ -1,5 +1,6 @@
 import CatiiProofs.KernTop
 import CatiiProofs.KernMany
+import CatiiProofs.KernManyRefine
 /-!
 # C08 — sorted-set kernels compute exact set algebra
 
@@ -49,6 +50,11 @@ theorem difference_exact (L R : Array Nat) (hL : SSorted L.toList) (hR : SSorted
   rcases hcase with rfl | ⟨rfl, hl, hr, hs⟩
   · exact ⟨by simpa using dif_sorted _ _ hL, fun x => by simpa using mem_dif _ _ hL hR x⟩
   · refine ⟨hL, fun x => ⟨fun h => ⟨h, fun h2 => disjoint_of_above _ R hL hR hl hr hs x ⟨h, h2⟩⟩, fun h => h.1⟩⟩
+
+/-- the index loop of `set_union_merge_many` (checked accesses, C09) returns exactly the list merge that
+`union_many_exact` is about — for every list of arrays -/
+theorem union_many_loop_is_the_merge (arrays : List (Array Nat)) : unionManyChecked arrays = unionManyK arrays :=
+  unionManyChecked_eq arrays
 
 /-- `set_union_merge_many`: the strictly increasing union of all the arrays, for any number
 of arrays (zero included) and any mix of empty ones -/
